@@ -6,7 +6,7 @@ cd /repo || exit 9
 if ! git diff --quiet; then echo "/repo not clean"; exit 9; fi
 git apply $P || { echo "PATCH DOES NOT APPLY: $NAME"; git checkout -q -- .; exit 8; }
 cd /verif
-"$@"; RC=$?
+VERIF_EVIDENCE_DIR=out/seed_evidence "$@"; RC=$?
 git -C /repo checkout -q -- .
 echo "[seed $NAME] rc=$RC"
 exit $RC
